@@ -2,6 +2,7 @@ package props
 
 import (
 	"fmt"
+	"runtime"
 	"strings"
 	"sync"
 	"time"
@@ -65,6 +66,13 @@ func c14Scenario(id string, callers int, reqs []int, shape int, startWithVal boo
 			wg.Add(1)
 			cors[ci] = fpgo.CorNewGenerics[int64](func() {
 				defer wg.Done()
+				if startWithVal {
+					// the callers are started BEFORE StartWithVal is called and go ahead as soon as the target
+					// reports IsStarted(): the initial value must still be the first thing the target takes
+					for !target.IsStarted() {
+						runtime.Gosched()
+					}
+				}
 				for i := 1; i <= reqs[ci]; i++ {
 					y := cors[ci].YieldFrom(target, int64(ci+1)<<32|int64(i))
 					callerGot[ci] = append(callerGot[ci], y)
@@ -72,12 +80,16 @@ func c14Scenario(id string, callers int, reqs []int, shape int, startWithVal boo
 			})
 		}
 		if startWithVal {
+			for _, co := range cors {
+				co.Start()
+			}
+			runtime.Gosched()
 			target.StartWithVal(startVal)
 		} else {
 			target.Start()
-		}
-		for _, co := range cors {
-			co.Start()
+			for _, co := range cors {
+				co.Start()
+			}
 		}
 		joined := make(chan struct{})
 		go func() { wg.Wait(); close(joined) }()
@@ -233,8 +245,8 @@ func init() {
 		ID: "C14",
 		Meta: func(c *core.Ctx) core.Meta {
 			return core.Meta{
-				Level: "exploration",
-				Rule: "topologies of 1..8 caller coroutines with 1..12 requests each (more than the channel buffer of 5) against one target that serves exactly the total, three generator shapes (fixed sequence, echo of the previous x, running accumulate), with and without StartWithVal, PRNG yields at cor.YieldRef.taken / cor.YieldFrom.sent / cor.doCloseSafe.checked; x = (caller, i) unique and y_k unique; goroutine-local logs joined by a WaitGroup the effects signal; oracle: every x exactly once at the target, the caller of the request taken as step k received exactly y_k, per-caller positions increase, counts match; StartWithVal value reaches the first YieldRef, DoNotation / YieldFromIO values and single IO effect, IsStarted/IsDone inside and after the effect; stuck detector; repeated under -race (deciding for cor.go). distinct_nontrivial = distinct topologies + hook-trace signatures",
+				Level:       "exploration",
+				Rule:        "topologies of 1..8 caller coroutines with 1..12 requests each (more than the channel buffer of 5) against one target that serves exactly the total, three generator shapes (fixed sequence, echo of the previous x, running accumulate), with and without StartWithVal, PRNG yields at cor.YieldRef.taken / cor.YieldFrom.sent / cor.doCloseSafe.checked; x = (caller, i) unique and y_k unique; goroutine-local logs joined by a WaitGroup the effects signal; oracle: every x exactly once at the target, the caller of the request taken as step k received exactly y_k, per-caller positions increase, counts match; StartWithVal value reaches the first YieldRef, DoNotation / YieldFromIO values and single IO effect, IsStarted/IsDone inside and after the effect; stuck detector; repeated under -race (deciding for cor.go). distinct_nontrivial = distinct topologies + hook-trace signatures",
 				Assumptions: []string{"only while the target has YieldRefs left to serve (statement); YieldFrom on a finished target is property C15", "the y of the YieldRef that consumes the StartWithVal value has no recipient by design"},
 			}
 		},
